@@ -541,6 +541,7 @@ type c08CLICase struct {
 	Files map[string]string `json:"files"`
 	Args  []string          `json:"args"`
 	Links map[string]string `json:"links,omitempty"` // symlink name -> target text
+	Env   []string          `json:"env,omitempty"`   // extra environment entries, passed verbatim
 }
 
 type c08Inj struct {
@@ -649,6 +650,16 @@ func c08CLICases(inj []c08Inj, thorough bool) []c08CLICase {
 			}
 		}
 	}
+	// odd process environments: entries that are not NAME=value, empty names and values, huge values
+	for _, env := range [][]string{{"NOEQUALS"}, {"=x"}, {"A="}, {""}, {"V=" + strings.Repeat("v", 100000)}, {"A=1", "A=2"}, {"BKL_VERSION="}} {
+		for _, t := range []string{"bkl", "bkld", "bkli", "bklr"} {
+			args := []string{"in.yaml"}
+			if t == "bkld" || t == "bkli" {
+				args = []string{"in.yaml", "t.yaml"}
+			}
+			out = append(out, c08CLICase{Tool: t, Files: map[string]string{"in.yaml": "a: 1\nh: $env:HOME\n", "t.yaml": "a: 1\n"}, Args: args, Env: env})
+		}
+	}
 	// malformed command lines
 	for _, a := range [][]string{{}, {"-f", "nope", "in.json"}, {"missing.json"}, {"in.ini"}, {"-o", "/nonexistent-dir/x.json", "in.json"}, {"--bogus"}, {"in.json", "missing.yaml"},
 		{"-f", "", "in.json"}, {"-f", "json", "-f", "yaml", "in.json"}, {"-o", "", "in.json"}, {"-r", "", "in.json"}, {"-r", "/nonexistent-root", "in.json"}, {"in.json", "-P", "-P"},
@@ -676,7 +687,7 @@ func c08CLI(c *core.Ctx, cs c08CLICase) {
 	sort.Strings(names)
 	cmd := exec.Command(filepath.Join(core.WorkDir(), "bin", cs.Tool), cs.Args...)
 	cmd.Dir = dir
-	cmd.Env = []string{"PATH=/usr/bin:/bin", "HOME=/root"}
+	cmd.Env = append([]string{"PATH=/usr/bin:/bin", "HOME=/root"}, cs.Env...)
 	var so, se bytes.Buffer
 	cmd.Stdout, cmd.Stderr = &so, &se
 	c.Eval()
@@ -689,6 +700,13 @@ func c08CLI(c *core.Ctx, cs c08CLICase) {
 	wit := cs.Tool + " " + strings.Join(cs.Args, " ") + " :: " + core.JSON(cs.Files)
 	if len(cs.Links) > 0 {
 		wit += " links " + core.JSON(cs.Links)
+	}
+	if len(cs.Env) > 0 {
+		e := core.JSON(cs.Env)
+		if len(e) > 60 {
+			e = e[:60] + "..."
+		}
+		wit += " env " + e
 	}
 	c.Validated()
 	if err == errWatchdog && c08ConfirmedHangs < 1 {
